@@ -272,6 +272,7 @@ func C04(ctx *core.Ctx, r *core.Report) {
 	c04RowProtocol(ctx, r)
 	c04MembersUntilExhausted(ctx, r)
 	c04ChooseThroughQualifiedLookup(ctx, r)
+	keyByItsOwnLeaf(ctx, r)
 	borrowFrom(ctx, r, "C10", C10, "lossy-convert")
 	borrowFrom(ctx, r, "C03", C03, "defaults-on-create")
 	c04FoundMemberIsReported(ctx, r)
